@@ -22,6 +22,12 @@ def c03_stages(tier):
 PROPS = {
     "C02": {
         "level": "exploration",
+        "technique": "runtime monitoring: differential decode oracle (kernel-layout client vs logging filesystem) over randomized requests; Miri on the virtio path",
+        "level_text": "Randomised, boundary-biased requests for every opcode are encoded with a layout table generated from the kernel header "
+                      "(not the crate's structs), run through the real Server::handle_message over all transports, and the logging filesystem's "
+                      "call log is compared argument by argument with what the protocol says the request denotes. Sampling, not enumeration: "
+                      "held on K executions; a subset also runs under Miri for UB in the decode path.",
+        "level_note": "Trusts the installed uapi header (7.38) as the protocol definition and the harness' per-opcode expectation table; x86_64 only.",
         "stages": c02_stages,
         "floor": 1000,
         "rule": "one well-formed request per case, opcode cycling over all 47 kernel opcodes, every field drawn boundary-biased "
@@ -34,6 +40,12 @@ PROPS = {
     },
     "C03": {
         "level": "exploration",
+        "technique": "runtime monitoring: reply bytes decoded by kernel layout and compared with the scripted filesystem result; Miri on the virtio path",
+        "level_text": "For scripted results of every variant (entries, attrs, handles, payloads, xattrs, locks, statfs, directory streams, every errno, "
+                      "non-OS error kinds) the emitted reply is decoded with the kernel-derived layout and must carry exactly the returned values; "
+                      "directory replies are parsed entry by entry; notifications are checked on the /dev/fuse writer. Sampled, seeded, replayable.",
+        "level_note": "Trusts the installed uapi header (7.38) plus two newer constants (backing_id word, NOTIFY_RESEND=7); capacity is always sufficient here "
+                      "(capacity sweeps belong to C01).",
         "stages": c03_stages,
         "floor": 1000,
         "rule": "one request per case with a scripted filesystem result (all result variants, errno sweep 1..133, 20 non-OS error kinds, "
